@@ -630,9 +630,12 @@ def _compute_expression_ir(
         object_names.get(id(obj), f"w{j}") for j, obj in enumerate(coefficients)
     ]
 
+    # Constants are not removed when they drop out of the expression in
+    # preprocessing: the kernel addresses them by their offset among the
+    # constants of the original expression (see original_constant_offsets)
     ir["constant_names"] = [
         object_names.get(id(obj), f"c{j}")
-        for j, obj in enumerate(ufl.algorithms.analysis.extract_constants(expr))
+        for j, obj in enumerate(ufl.algorithms.analysis.extract_constants(original_expr))
     ]
 
     expr_name = object_names.get(id(original_expr), index)
